@@ -63,6 +63,7 @@ def units(tier):
     us += func_units(M + ".__init__", tier)
     us += func_units(R + ".parse", tier)
     us += func_units(R + "._parse_rtcm3", tier)
+    us += func_units(R + ".__init__", tier)  # the reader stores each option in its own slot: the label option selects labels, nothing else
     from spec import api
     from props.common import ground_unit as _gu
     us.append(_gu("api.signatures", api.signature_lemmas(['pyrtcm.rtcmreader.RTCMReader.parse', 'pyrtcm.rtcmmessage.RTCMMessage.__init__', 'pyrtcm.rtcmreader.RTCMReader.__init__'])))
